@@ -246,8 +246,7 @@ def run_config(batch, rec):
     rec.assume_note("rate constants > 0; initial concentrations >= 0, not all zero; denominators (rate differences) non-zero, "
                     "i.e. distinct eigenvalues as the property states; eig/solve replaced by their contracts")
     core.Ctx.generic_models = False  # replays draw their own generic rate constants
-    for cfg in batch["items"]:
-        _run_one(cfg, rec)
+    rec.each(batch["items"], lambda cfg: _run_one(cfg, rec))
 
 
 def _dataset_model(cfg, names, jvals, exclude):
